@@ -37,8 +37,11 @@ FILES = {}
 CAN = "ext_can_store"
 MST = "ext_min_scalar_type"
 
-ROLL_GUARD = ("not all((can_store(a.coords.dtype, int(sh)) and can_store(a.coords.dtype, a.shape[ax] + int(sh)) "
-              "for sh, ax in zip(shift, axis, strict=True)))")
+# roll's capacity guard: the `if not all(<generator over zip(shift, axis)>)` whose element mentions
+# can_store(a.coords.dtype, ...).  It is located by this pattern rather than by its exact text, so that an
+# edit of the per-axis condition regenerates g_roll_axis_ok from the edited source (the roll theorems are
+# then re-checked against it, and the campaign runs against the regenerated model) instead of failing closed.
+ROLL_GUARD_RE = r"^not all\(\(.*can_store\(a\.coords\.dtype, .*for sh, ax in zip\(shift, axis, strict=True\)\)\)$"
 
 PY2V = [
     dict(name="g_get_out_dtype", file=UT, func="get_out_dtype", params=["arr", "scalar"],
@@ -56,8 +59,6 @@ PY2V = [
     dict(name="g_concat_upcast", file=COMMON, func="concatenate", params=["coords", "m"], result=["coords"],
          selector=("if", "not can_store(coords.dtype, max(shape))"),
          extern={"coords.astype(np.min_scalar_type(max(shape)))": f"{MST} m"}),
-    # roll: the capacity guard (body), addressed by the exact text of its test ...
-    dict(name="g_roll_guard", file=COMMON, func="roll", params=[], selector=("if", ROLL_GUARD)),
     # _from_coo: explicit idx_dtype guard, and the default choice
     dict(name="g_from_coo_guard", file=GCXS, func="_from_coo", params=[],
          selector=("if", "idx_dtype and (not can_store(idx_dtype, max(max(compressed_shape), x.nnz)))")),
@@ -79,9 +80,14 @@ PY2V = [
 # whose test has exactly the given text, translated by py2v's expression translator
 # (`can_store` -> ext_can_store, `int` -> py_int).
 GENEXPR = [
-    dict(name="g_roll_axis_ok", file=COMMON, func="roll", test=ROLL_GUARD, params=["dt", "sh", "n"],
+    dict(name="g_roll_axis_ok", file=COMMON, func="roll", test_re=ROLL_GUARD_RE, params=["dt", "sh", "n"],
          calls={"can_store": CAN},
          extern={"a.coords.dtype": "Ok dt", "a.shape[ax]": "Ok n"}),
+]
+
+# the body of the `if` located by the same pattern (must translate to `Raise ValueError`)
+IFBODY = [
+    dict(name="g_roll_guard", file=COMMON, func="roll", test_re=ROLL_GUARD_RE, params=[]),
 ]
 
 # the right-hand side of the single assignment `<target> = ...` of a function, translated by py2v's
